@@ -80,13 +80,14 @@ def run(ctx):
     from regions._geometry import circular_overlap_grid, elliptical_overlap_grid
     U = 4 * m
     events, meta = [], []
-    nshapes = 140 if quick else 1500
+    nshapes = 260 if quick else 2500
     for t in range(nshapes):
         if rnd.random() < 0.4:
             s = {'k': 'circle', 'cx': rnd.choice([0, 1, 2, 3, 5, 8, U // 2]), 'cy': rnd.choice([0, 1, 3, U // 2, 7]), 'r': rnd.choice([4, 6, 8, 12, 16, 24, 40, 64, 96]), 'inc': 'absent'}
         else:
-            w, h = rnd.choice([(16, 8), (8, 16), (24, 8), (48, 8), (32, 24), (12, 20), (40, 16), (96, 16)])
-            s = {'k': 'ellipse', 'cx': rnd.choice([0, 1, 2, 3, 5, U // 2]), 'cy': rnd.choice([0, 1, 3, 6, U // 2]), 'w': w, 'h': h, 'd': list(rnd.choice(DIRS5)), 'inc': 'absent'}
+            w, h = rnd.choice([(16, 8), (8, 16), (24, 8), (48, 8), (32, 24), (12, 20), (40, 16), (96, 16),
+                               (2, 12), (12, 2), (4, 14), (3, 10), (6, 6), (2, 26), (5, 9), (10, 3)])       # incl. ellipses smaller than a pixel
+            s = {'k': 'ellipse', 'cx': rnd.choice([0, 1, 2, 3, 5, 7, U // 2]), 'cy': rnd.choice([0, 1, 3, 6, 5, U // 2]), 'w': w, 'h': h, 'd': list(rnd.choice(DIRS5)), 'inc': 'absent'}
         fr = geom.Frame(U, 1.0, 0.0, 0.0, rnd.randint(0, 2))
         reg = geom.build(s, fr)
         try:
